@@ -48,7 +48,7 @@ def boundary_lengths(P, F, kmax):
 def plan(tier):
     if tier == "quick":
         specs = [{"part": "table", "mtu": m, "kmax": 2, "stride": 3, "off": i % 3} for i, m in enumerate(TABLE_MTUS)]
-        specs += [{"part": "hist", "n": 300, "i": i, "strict": i % 2 == 0} for i in range(7)]
+        specs += [{"part": "hist", "n": 200, "i": i, "strict": i % 2 == 0} for i in range(7)]
         return specs
     specs = [{"part": "table", "mtu": m, "kmax": 12, "stride": 1, "off": 0} for m in TABLE_MTUS]
     specs += [{"part": "hist", "n": 5000, "i": i, "strict": i % 2 == 0} for i in range(16)]
@@ -111,8 +111,9 @@ def table_case(ctx, mtu, n, side, api, flavour="udp", lose=1):
 
 
 def run_table_case(ctx, c):
-    """the first transmission (c["lose"] = 1, strict: each fragment once) or the first two transmissions (c["lose"] = 2,
-    unfragmented lengths only) of every datagram that carries the message are lost"""
+    """the first transmission (c["lose"] = 1, strict: each fragment once) or the first two transmissions (c["lose"] = 2; the
+    message is alone on the link, so no other fragment traffic can trigger the reassembly purge D6) of every datagram that
+    carries the message are lost"""
     seen = {}
     lose = c.get("lose", 1)
 
@@ -157,7 +158,7 @@ def run_table(spec, ctx):
             if ctx.out_of_time():
                 ctx.inconclusive += 1
                 return
-            lose = 2 if (n <= P and k % 3 == 0) else 1
+            lose = 2 if k % 3 == 0 else 1
             c = table_case(ctx, mtu, n, side, api, "udp" if k % 2 else "twisted", lose=lose)
             ctx.case({"part": "table", "c": c})
             f = run_table_case(ctx, c)
